@@ -96,6 +96,26 @@ def loop_programs():
     return progs
 
 
+def float_equality_programs():
+    """equality of Kommazahlen is equality of numbers wherever the numbers are held: alone, in a list, in a Kombination, in a
+    Variable — 0,0 and -0,0 are equal, a value that is not a number (0,0 durch 0,0) equals nothing, not even itself"""
+    F = lambda x: ("float", gen.bits_of_float(x))
+    V = lambda n: ("var", n)
+    zero, one = F(0.0), F(1.5)
+    progs = []
+    decls = [("decl", "K", "pz", zero), ("decl", "K", "nz", ("un", "negate", zero)), ("decl", "K", "nan", ("bin", "div", zero, zero))]
+    for label, a, b in (("zero", V("pz"), V("nz")), ("nan", V("nan"), V("nan")), ("same", V("pz"), V("pz"))):
+        holders = [("scalar", "K", a, b),
+                   ("list", ("L", "K"), ("list", "K", [one, a]), ("list", "K", [one, b])),
+                   ("list-first", ("L", "K"), ("list", "K", [a, one, one]), ("list", "K", [b, one, one])),
+                   ("variable", "V", ("cast", a, "V"), ("cast", b, "V"))]
+        for hl, ty, x, y in holders:
+            main = decls + [("decl", ty, "x", x), ("decl", ty, "y", y),
+                            ("println", ("bin", "eq", V("x"), V("y"))), ("println", ("bin", "ne", V("x"), V("y")))]
+            progs.append(("float-equality:%s:%s" % (label, hl), dict(structs=[], globals=[], funcs=[], main=main, types={})))
+    return progs
+
+
 def check(res, tier):
     sd = seed()
     rng = Rng(sd)
@@ -124,6 +144,15 @@ def check(res, tier):
     st5 = evalcorr.judge_programs(res, ddp, model, [p for _, p in loops], cfgs[:1] if quick else cfgs, "loops", max_report=4)
     for lab, _ in loops:
         res.nontrivial("loop:" + lab)
+    feq = float_equality_programs()
+    want = evalcorr.model_eval(model, [p for _, p in feq])
+    got = pipeline.farm(ddp, [(evalcorr.files_of(p), pipeline.Config(opt=1), {}) for _, p in feq])
+    for (lab, p), (mo, mso), r in zip(feq, want, got):
+        res.evaluations += 1
+        res.nontrivial(lab)
+        if mo == "ok" and (r.cls != "ok" or r.stdout != mso):
+            res.violation(lab, "%s: equality of Kommazahlen depends on where they are held: the compiled program prints %r, the evaluation rules give %r" % (lab, r.stdout, mso),
+                          {"program": gen.pp_program(p), "model": {"outcome": mo, "stdout": mso}, "implementation": r.as_dict()})
     evalcorr.report_broken(res, broken)
     hist = Counter()
     for p in full + mini:
